@@ -95,6 +95,12 @@ CHECKS["C17"] = dict(level="model_checking", engine="xplore",
    note="The production configuration (128 KiB slice, 1 slice) differs only in constants and is exercised end to end by C02; the scaled-down window is what makes eviction, cross-slice offsets and recycling reachable exhaustively.",
    design="3/C17")
 
+CHECKS["C11"] = dict(level="exploration", engine="sweep",
+   technique="complete enumeration of a finite configuration space (descriptors x limits x history position x front end) against the reference rule window <= min(limit, format max), with an allocation meter",
+   text="All 256 window descriptors and 26 single-segment content sizes (every field width at its boundaries, default limit +-1, format maximum +-1, 2^63, 2^64-1) x limits {unset, 0, 1023, 1024, default, format max -1/0/+1, 2^64-1, the declared window -1/0/+1} x position of the frame in the decoder's history {first, after a completed, a failed, a rejected frame} x 8 front ends (reset, init, decode_all, decode_all_to_vec, decode_from_to, StreamingDecoder::new / new_with_max_window_size / new_with_decoder): 77k cases, the whole space in both tiers. Accept <=> window <= min(limit, format maximum); a rejection must carry requested == declared window and max == effective limit, and the counting allocator must not have seen a single request >= 64 KiB before it; set_max_window_size must clamp. An accepted window above 64 MiB on the reuse path has its window-sized allocation refused by the harness and is recorded as accepted.",
+   note="The allocation threshold (64 KiB) is far below any window that can be rejected at the default limit and far above the decoder's fixed scratch allocations.",
+   design="3/C11")
+
 NOT_YET = {}
 
 def main():
